@@ -4,6 +4,7 @@
 //	cfg lb=rr|rb codec=<spec> [name=<esc>] [via=rec|srv] [opts=0|1]
 //	upsert <esc-url> [w]        -> ok <esc-url>,<weight now>,<key> | err badurl | err <msg>
 //	remove <esc-url>            -> ok <key> | err notfound | err badurl      (<key> = <esc scheme>|<esc host>|<esc path>)
+//	upsert-inner / remove-inner -> as upsert / remove, but on the RoundRobin wrapped by the Rebalancer (lb=rb) directly
 //	servers                     -> servers <esc-url>,<w>,<esc scheme>|<esc host>|<esc path> ...   (Servers() order, ServerWeight)
 //	codec <spec>                -> ok            (StickySession.SetCookieValue)
 //	mint <spec> <esc-url>       -> minted v:<esc-token>|none <esc-url>,<key>   (a second, foreign StickySession of that
@@ -508,8 +509,15 @@ func (s *h) Op(f []string) string {
 			return errs
 		}
 		return "minted " + set + " " + esc(u.String()) + "," + esc(u.Scheme) + "|" + esc(u.Host) + "|" + esc(u.Path)
-	case "upsert", "remove":
-		if len(f) < 2 || len(f) > 3 || f[0] == "remove" && len(f) != 2 {
+	case "upsert", "remove", "upsert-inner", "remove-inner":
+		// upsert/remove go through the front end (the Rebalancer when lb=rb); the -inner forms register the server on
+		// the wrapped RoundRobin directly, outside the Rebalancer
+		var adm lbI = s.lb
+		if strings.HasSuffix(f[0], "-inner") {
+			adm = s.rr
+		}
+		isRemove := strings.HasPrefix(f[0], "remove")
+		if len(f) < 2 || len(f) > 3 || isRemove && len(f) != 2 {
 			return "bad-op"
 		}
 		w := -1
@@ -528,16 +536,16 @@ func (s *h) Op(f []string) string {
 		if err != nil {
 			return "err badurl"
 		}
-		if f[0] == "remove" {
-			if err := s.lb.RemoveServer(u); err != nil {
+		if isRemove {
+			if err := adm.RemoveServer(u); err != nil {
 				return "err notfound"
 			}
 			return "ok " + keyOf(u)
 		}
 		if w >= 0 {
-			err = s.lb.UpsertServer(u, roundrobin.Weight(w))
+			err = adm.UpsertServer(u, roundrobin.Weight(w))
 		} else {
-			err = s.lb.UpsertServer(u)
+			err = adm.UpsertServer(u)
 		}
 		if err != nil {
 			return "err " + strings.ReplaceAll(err.Error(), " ", "_")
@@ -549,7 +557,8 @@ func (s *h) Op(f []string) string {
 	case "servers":
 		var b strings.Builder
 		b.WriteString("servers")
-		for _, u := range s.lb.Servers() {
+		// the reference membership is what the (wrapped) round-robin balancer holds
+		for _, u := range s.rr.Servers() {
 			w, _ := s.rr.ServerWeight(u)
 			fmt.Fprintf(&b, " %s,%d,%s|%s|%s", esc(u.String()), w, esc(u.Scheme), esc(u.Host), esc(u.Path))
 		}
